@@ -48,6 +48,17 @@ Expect(s, ev) ==
          ELSE [st |-> s,
                ok |-> SegsOK(ev.a, ev.b, 1, ev.slack),
                why |-> "leak " \o ev.prim \o ": trace depends on the secret before the verdict"]
+    \* C09, dynamic complement: instruction-address sequences of one assembly routine, single-stepped under
+    \* ptrace, for the same lengths and different key / data bytes (mode "same": identical), or for an
+    \* authentic and a refused message (mode "verdict": identical up to the verdict branch at the end)
+    [] ev.op = "pc.pair" ->
+         [st |-> s,
+          ok |-> IF ev.mode = "same" THEN ev.ta = ev.tb
+                 \* Open verifies, then decrypts: a refused call (tb) is the authentic one (ta) up to the verdict
+                 \* branch and then returns - all but its last `slack` instructions are a prefix of ta
+                 ELSE L!CommonPrefix(ev.ta, ev.tb, 1) >= Len(ev.tb) - ev.slack,
+          why |-> "pc " \o ev.routine \o ": instruction sequence depends on the data"
+                  \o (IF ev.mode = "same" THEN "" ELSE " before the verdict")]
     [] ev.op = "leak.schedule" ->
          [st |-> s,
           ok |-> \A i \in 1..Len(ev.expect) : Count(ev.records, ev.expect[i].sym) = ev.expect[i].n,
